@@ -160,8 +160,25 @@ def cases(shard, nshards, seed, tier):
             yield {"family": "limit", "kind": kind}
 
 
-def beyond(rng, rows):
-    """Push a table beyond PDB limits in one or more ways."""
+_IDS = "ABCDEFGHIJKLMNOPQRSTUVWXYZabcdefghijklmnopqrstuvwxyz0123456789"
+
+
+def beyond(rng, rows, runs_of_ids=False):
+    """Push a table beyond PDB limits in one or more ways.  runs_of_ids: the only excess is chain names of two or
+    three characters that are consecutive one-character ids (AB, Za, 12, XYZ) next to one-character names."""
+    if runs_of_ids:
+        chains = []
+        for r in rows:
+            if r["chain"] not in chains:
+                chains.append(r["chain"])
+        ren = {}
+        for j, c in enumerate(chains):
+            k = _IDS.find(c)
+            ren[c] = _IDS[k:k + rng.choice([2, 2, 3])] if (j == 0 or rng.random() < 0.5) and 0 <= k < len(_IDS) - 3 else c
+        if len(set(ren.values())) == len(ren) and any(len(v) > 1 for v in ren.values()):
+            for r in rows:
+                r["chain"] = ren[r["chain"]]
+            return ["multichar-chain:consecutive-ids"]
     ways = rng.sample(["multichar-chain", "big-resseq", "big-serial"], rng.randint(1, 3))
     chains = []
     for r in rows:
@@ -200,7 +217,7 @@ def run_case(case, rec):
             # residues whose records are not contiguous (conformer blocks, atoms appended after a later residue)
             ctx["scattered-residues"] = gentab.scatter_residue_atoms(rng, rows)
         if mode == "beyond":
-            ctx["ways"] = beyond(rng, rows)
+            ctx["ways"] = beyond(rng, rows, runs_of_ids=case["i"] % 7 == 3)
             src = "mmCIF"
         else:
             src = "PDB" if mode == "fits-pdb" else "mmCIF"
